@@ -43,7 +43,7 @@ def trav_queries(nv, starts, unis, modes, kinds=("bft", "dftr", "dfti"), via="-"
                     yield "%s %s V%d %d %d %s %s %s" % (t, u, s, d, k, via, res, listmode)
 
 
-def search_queries(nv, starts, unis, vals=(0, 1, 2, 5)):
+def search_queries(nv, starts, unis, vals=(0, 1, 2, 5, 6)):
     for s in starts:
         for u in unis:
             for t in ("bfs", "dfsr", "dfsi"):
@@ -212,7 +212,7 @@ class TravBase(Check):
             for v in vs:
                 for u in unis:
                     for t in ("bfs", "dfsr", "dfsi"):
-                        qs.append("%s %s %s 0 %d" % (t, u, v, rng.choice([0, 1, 5])))
+                        qs.append("%s %s %s 0 %d" % (t, u, v, rng.choice([0, 1, 5, 6])))
         for v in vs:
             for u in unis:
                 for (d, k) in [(0, 0), (0, 1), (1, 1), (2, 0), (0, 2)]:
@@ -250,7 +250,7 @@ class TravBase(Check):
                 for v in vs:
                     for t in (("bfs", "dfsr", "dfsi") if self.searches else ("bft", "dftr", "dfti")):
                         if self.searches:
-                            for val in (0, 1, 5):
+                            for val in (0, 1, 5, 6):
                                 q2.append("%s V%d %s 0 %d" % (t, ui, v, val))
                         else:
                             q2.append("%s V%d %s %d %d - - list" % (t, ui, v, rng.choice([0, 1, 2]), rng.choice([0, 1])))
